@@ -825,6 +825,12 @@ impl LdapConnAsync {
                             LdapOp::Abandon(m) => format!("abandon:{}", m),
                             LdapOp::Unbind => String::from("unbind"),
                         }));
+                        // The ID was released while the request waited in the queue: its
+                        // caller timed out (or abandoned it) and the scrub got here first.
+                        // The request must be neither sent nor registered.
+                        if !self.msgmap.lock().expect("msgmap mutex (op rx)").1.contains(&id) {
+                            continue;
+                        }
                         if let LdapOp::Search(ref search_tx) = op {
                             self.searchmap.insert(id, search_tx.clone());
                         }
